@@ -440,7 +440,10 @@ class Process(metaclass=abc.ABCMeta):
         Args:
             override: The schema override to add.
         """
-        deep_merge(self._schema_override, override)
+        # merge a copy: the override dictionary may be applied to other
+        # processes as well (a composer applies its override to every
+        # composite it generates)
+        deep_merge(self._schema_override, copy.deepcopy(override))
 
     def ports(self) -> Dict[str, List[str]]:
         """Get ports and each port's variables.
